@@ -31,8 +31,28 @@ def _raii_only(fx, col):
 PROPERTIES = {}
 NOT_APPLICABLE = {}
 
+CORE_TEXT = (' Imported core-protocol obligations (every behavioural property of the container rests on the same debt / helping '
+             'protocol, so a change that breaks one of these breaks this property too): PUBLISH-CONFIRM, INTENT-FIRST, '
+             'PAY-BEFORE-RELEASE, COVER-ALL + RAII-SPAN, CLAIM-EMPTY, PAY-CAS, PAY-USED, SLOT-CLOSED, INUSE-FSM, REUSE-FIRST, NEXT-ONCE, '
+             'COOLDOWN-OWNED, NODE-STABLE, ADDR-GUARD + GEN-REVALIDATE + REPLACEMENT-FRESH, ADDR-BEFORE-GEN, OWN-STORAGE, MP, RMW-ONLY, '
+             'LEDGER + INC-PROTECTED, BYPASS.')
+
+
+def _core(fx, col):
+    for r in (R.rule_publish_confirm, R.rule_intent_first, R.rule_pay_before_release, R.rule_cover_all, R.rule_claim_empty,
+              O.rule_pay_cas, R.rule_pay_used, R.rule_slot_closed, O.rule_inuse_fsm, N.rule_reuse_first, P.rule_next_once,
+              T.rule_cooldown_owned, T.rule_node_stable, I.rule_addr_guard, I.rule_addr_before_gen, I.rule_own_storage,
+              O.rule_mp, O.rule_rmw_only, L.rule_ledger, L.rule_bypass):
+        r(fx, col)
+
+
+CORE_PROPS = ('C01', 'C02', 'C03', 'C04', 'C05', 'C06', 'C07', 'C10', 'C12', 'C14', 'C16', 'C17', 'C20')
+
 
 def prop(pid, title, rules, explanation, not_decided, **kw):
+    if pid in CORE_PROPS:
+        rules = list(rules) + [_core]
+        explanation = explanation + CORE_TEXT
     PROPERTIES[pid] = dict(title=title, run=_run(rules), explanation=explanation, not_decided=not_decided,
                            rule_names=[getattr(r, '__name__', '?').replace('rule_', '').upper() for r in rules], **kw)
 
@@ -208,8 +228,8 @@ def _inc_protected(fx, col):
 
 
 PROPERTIES['C01']['run'] = _run([R.rule_publish_confirm, R.rule_intent_first, R.rule_pay_before_release, R.rule_cover_all,
-                                 P.rule_never_freed, R.rule_claim_empty, _ord_c01, _inc_protected])
-PROPERTIES['C02']['run'] = _run([L.rule_ledger, L.rule_bypass, R.rule_pay_used, O.rule_pay_cas, R.rule_slot_closed, R.rule_cover_all, A.rule_no_stash])
+                                 P.rule_never_freed, R.rule_claim_empty, _ord_c01, _inc_protected, _core])
+PROPERTIES['C02']['run'] = _run([L.rule_ledger, L.rule_bypass, R.rule_pay_used, O.rule_pay_cas, R.rule_slot_closed, R.rule_cover_all, A.rule_no_stash, _core])
 
 prop('C03', 'loads are linearizable (provenance clause)',
      [R.rule_publish_confirm, R.rule_intent_first, I.rule_addr_guard, I.rule_addr_before_gen, I.rule_own_storage, R.rule_pay_before_release, A.rule_no_stash, _ord_seq],
